@@ -57,9 +57,12 @@ var dispatchOnce sync.Once
 
 func observeDispatch() {
 	dispatchOnce.Do(func() {
-		b, err := sm4.NewCipher(make([]byte, 16))
+		b, err := probeCipher()
 		if err != nil {
-			h.HarnessError("sm4.NewCipher(16 zero bytes): %v", err)
+			// a cipher that cannot even be built is for the cases to report (as a
+			// violation with a replay), not for the dispatch observation
+			h.Observe("block-type", "sm4.NewCipher(16 zero bytes) failed: "+err.Error())
+			return
 		}
 		conc := 0
 		if cb, ok := b.(concurrentBlocks); ok {
@@ -79,6 +82,27 @@ func observeDispatch() {
 			h.HarnessError("configuration aesni1 without FORCE_SM4BLOCK_AESNI=1")
 		}
 	})
+}
+
+// probeCipher builds a cipher outside any case (dispatch observation, sweep
+// enumeration) from a zero key on a 64-byte boundary, so that nothing a case is
+// meant to find (misaligned key, ...) can take the process down before the
+// first case is journalled; a panic or fault is returned as an error.
+func probeCipher() (b gocipher.Block, err error) {
+	old := debug.SetPanicOnFault(true)
+	defer debug.SetPanicOnFault(old)
+	defer func() {
+		if p := recover(); p != nil {
+			b, err = nil, fmt.Errorf("panic: %v", p)
+		}
+	}()
+	k := newOffBuf(16, 0)
+	fill(k.B, 0)
+	b, err = sm4.NewCipher(k.B)
+	if err == nil && b == nil {
+		err = fmt.Errorf("neither cipher nor error")
+	}
+	return
 }
 
 func hostFlags() string {
@@ -114,7 +138,7 @@ const (
 // whose last byte lies directly before an inaccessible page, and a source and a
 // destination whose first byte lies directly after one.
 type bufs struct {
-	n                      int
+	n, calls               int
 	srcE, dstE, srcS, dstS *gen.Guarded
 }
 
@@ -173,6 +197,39 @@ func allEq(b []byte, v byte) int {
 	return -1
 }
 
+// offBuf is an n-byte heap slice (cap n) whose first byte lies exactly off
+// bytes (0..63) behind a 64-byte boundary, with canary bytes on both sides.
+// Guard-page buffers cannot provide this: block-multiple data flush against a
+// page boundary is always 16-byte aligned, and an instruction that needs an
+// aligned memory operand (MOVDQA, PXOR mem,reg ...) faults only on the others.
+type offBuf struct {
+	backing, B []byte
+}
+
+func newOffBuf(n, off int) *offBuf {
+	if off < 0 || off > 63 {
+		panic("c02: bad alignment offset")
+	}
+	backing := make([]byte, n+2*margin+128)
+	fill(backing, canary)
+	base := uintptr(unsafe.Pointer(&backing[0])) + margin
+	k := margin + int((64-base%64)%64) + off
+	return &offBuf{backing, backing[k : k+n : k+n]}
+}
+
+// intact returns -1 if every byte around B still holds the canary, else the
+// offset of the first changed byte relative to B[0].
+func (o *offBuf) intact() (int, bool) {
+	start := int(uintptr(unsafe.Pointer(unsafe.SliceData(o.B))) - uintptr(unsafe.Pointer(&o.backing[0])))
+	if i := allEq(o.backing[:start], canary); i >= 0 {
+		return i - start, false
+	}
+	if i := allEq(o.backing[start+len(o.B):], canary); i >= 0 {
+		return len(o.B) + i, false
+	}
+	return 0, true
+}
+
 // prefill writes the complement of want into dst, so that every byte of the
 // result has to be written by the operation under test.
 func prefill(dst, want []byte) {
@@ -192,6 +249,9 @@ func prefill(dst, want []byte) {
 //	inplace/start   dst == src, starting after an inaccessible page
 //	dst-longer      heap buffers, len(dst) = len(in)+dstExtra (and, if srcExtra>0,
 //	                len(src) = len(in)+srcExtra): the surplus is not to be touched
+//	misaligned      heap buffers of exact capacity between canaries, src and dst
+//	                independently 0..15 (+0/16/32/48) bytes behind a 64-byte
+//	                boundary, then dst == src at a third such offset
 func (b *bufs) run(what string, op func(dst, src []byte), in, want []byte, dstExtra, srcExtra int) error {
 	n := len(in)
 	if len(want) != n || n > b.n {
@@ -304,6 +364,50 @@ func (b *bufs) run(what string, op func(dst, src []byte), in, want []byte, dstEx
 			return bad("dst-longer", "the source buffer (or bytes behind it) was modified", dst[:n])
 		}
 	}
+	if n > 0 {
+		// misaligned: src and dst independently 0..15 bytes (+0/16/32/48) behind a
+		// 64-byte boundary; the offsets are a function of the data and the call
+		// number, hence of the case. Then in place at a third offset.
+		b.calls++
+		sel := gen.Mix(uint64(n), uint64(b.calls), uint64(in[0]), uint64(in[n-1]), uint64(in[n/2]))
+		so, do := int(sel%16), int((sel>>4)%16)
+		if so == 0 && do == 0 {
+			so = 1 + int((sel>>8)%15)
+		}
+		so, do = so+16*int((sel>>12)%4), do+16*int((sel>>14)%4)
+		src, dst := newOffBuf(n, so), newOffBuf(n, do)
+		copy(src.B, in)
+		prefill(dst.B, want)
+		layout := fmt.Sprintf("misaligned src@64k+%d dst@64k+%d", so, do)
+		if err := call(layout, dst.B, src.B); err != nil {
+			return err
+		}
+		if !bytes.Equal(dst.B, want) {
+			return bad(layout, fmt.Sprintf("wrong result (first difference in block %d)", firstDiff(dst.B, want)/bs), dst.B)
+		}
+		if !bytes.Equal(src.B, in) {
+			return bad(layout, "the source buffer was modified: "+h.Hex(src.B), dst.B)
+		}
+		if i, ok := dst.intact(); !ok {
+			return bad(layout, fmt.Sprintf("byte dst[%d] outside dst[:%d] was written", i, n), dst.B)
+		}
+		if i, ok := src.intact(); !ok {
+			return bad(layout, fmt.Sprintf("byte src[%d] next to the source was written", i), dst.B)
+		}
+		io := 1 + int((sel>>16)%15) + 16*int((sel>>20)%4)
+		buf := newOffBuf(n, io)
+		copy(buf.B, in)
+		layout = fmt.Sprintf("misaligned in place @64k+%d", io)
+		if err := call(layout, buf.B, buf.B); err != nil {
+			return err
+		}
+		if !bytes.Equal(buf.B, want) {
+			return bad(layout, fmt.Sprintf("wrong result with dst == src (first difference in block %d)", firstDiff(buf.B, want)/bs), buf.B)
+		}
+		if i, ok := buf.intact(); !ok {
+			return bad(layout, fmt.Sprintf("byte dst[%d] outside dst[:%d] was written", i, n), buf.B)
+		}
+	}
 	return nil
 }
 
@@ -363,6 +467,19 @@ func selfTestLayouts() error {
 	for name, op := range broken {
 		if err := try(op, 32); err == nil {
 			return fmt.Errorf("layout runner does not detect: %s", name)
+		}
+	}
+	for off := 0; off < 64; off++ {
+		o := newOffBuf(48, off)
+		if got := int(uintptr(unsafe.Pointer(&o.B[0])) % 64); got != off || len(o.B) != 48 || cap(o.B) != 48 {
+			return fmt.Errorf("newOffBuf(48,%d): address mod 64 = %d, len %d cap %d", off, got, len(o.B), cap(o.B))
+		}
+		if _, ok := o.intact(); !ok {
+			return fmt.Errorf("newOffBuf(48,%d): canaries not intact on a fresh buffer", off)
+		}
+		*(*byte)(unsafeAdd(&o.B[47], 1)) = 0
+		if i, ok := o.intact(); ok || i != 48 {
+			return fmt.Errorf("newOffBuf: a write behind the slice is not detected (%d %v)", i, ok)
 		}
 	}
 	// raw guard-page probes: one byte beyond / before the usable slice must fault
@@ -549,20 +666,47 @@ func refBlocks(key, in []byte, dec bool) []byte {
 // buffer (so that key expansion cannot read beyond it) which is scribbled over
 // afterwards: the expanded key must not depend on the caller's slice.
 func newCipher(key []byte) (gocipher.Block, error) {
-	g := guarded(len(key), true)
-	defer g.Free()
-	copy(g.B, key)
-	b, err := sm4.NewCipher(g.B)
+	return newCipherAt(key, -1)
+}
+
+// newCipherAt: off < 0 picks the placement from the key bytes (half of the
+// keys: guard page; the others: heap, 1..15 bytes behind a 64-byte boundary,
+// since key expansion reads the key in assembly); off in 0..63 forces the
+// heap placement at that offset.
+func newCipherAt(key []byte, off int) (gocipher.Block, error) {
+	var kb []byte
+	var ob *offBuf
+	if off < 0 && len(key) > 0 {
+		sel := gen.Mix(uint64(len(key)), uint64(key[0]), uint64(key[len(key)-1]), uint64(key[len(key)/2]))
+		if sel&1 == 1 {
+			off = 1 + int((sel>>1)%15) + 16*int((sel>>5)%4)
+		}
+	}
+	if off >= 0 {
+		ob = newOffBuf(len(key), off)
+		kb = ob.B
+	} else {
+		g := guarded(len(key), true)
+		defer g.Free()
+		kb = g.B
+	}
+	copy(kb, key)
+	b, err := sm4.NewCipher(kb)
 	if err != nil {
 		return nil, fmt.Errorf("sm4.NewCipher rejected the %d-byte key %s: %v", len(key), h.Hex(key), err)
 	}
 	if b == nil {
 		return nil, fmt.Errorf("sm4.NewCipher returned neither a cipher nor an error for key %s", h.Hex(key))
 	}
-	if !bytes.Equal(g.B, key) {
-		return nil, fmt.Errorf("sm4.NewCipher modified the key: %s -> %s", h.Hex(key), h.Hex(g.B))
+	if !bytes.Equal(kb, key) {
+		return nil, fmt.Errorf("sm4.NewCipher modified the key: %s -> %s", h.Hex(key), h.Hex(kb))
 	}
-	fill(g.B, 0xEE)
+	if ob != nil {
+		if i, ok := ob.intact(); !ok {
+			return nil, fmt.Errorf("sm4.NewCipher wrote next to the key slice (offset %d)", i)
+		}
+	}
+	fill(kb, 0xEE)
 	if b.BlockSize() != bs {
 		return nil, fmt.Errorf("BlockSize() = %d", b.BlockSize())
 	}
